@@ -12,7 +12,7 @@ CHECKS = {
          "samples histories; the model's reading of the timeline is the specification", "DESIGN.md 4/C02"),
  "C17": ("worldsim", "exploration", "deterministic simulation: long seeded churn histories with an index-bound oracle (index < running peak of not-yet-dead entities)",
          "Every creation in long churn histories is checked against the running peak; found and led to the repair of the batch-deletion leak (known_findings.txt).",
-         "samples histories", "DESIGN.md 4/C17"),
+         "samples histories; a second part keeps the index-bound oracle active across caught destructor panics (fault configuration)", "DESIGN.md 4/C17, 13"),
  "C03": ("worldsim", "exploration", "deterministic simulation: histories that manufacture stale handles (index reused 0..n times, re-user merged or awaiting maintain), every handle-taking access path probed, reference-model oracle",
          "Dead handles - biased to those whose index is re-occupied by an entity that has the component - are sent through get/get_mut/contains/insert/remove/entry/get_mut_or_default/lend-join get/restricted get_other(_mut)/lazy insert+remove for every storage kind; results and the occupant's state are compared with the model.",
          "samples histories; storage kinds and access paths are swarm-chosen per run", "DESIGN.md 4/C03"),
@@ -24,22 +24,22 @@ CHECKS = {
          "samples histories and registration paths", "DESIGN.md 4/C05"),
  "C08": ("worldsim", "exploration", "deterministic simulation with crash points: value ledger (construction/destruction of instrumented components) over full histories ending with the world dropped at a generated point",
          "Each operation's set of destroyed values must equal the model's; values returned are accounted once; after the world is dropped (possibly mid-frame, un-merged entities, non-empty lazy queue) nothing is left alive and nothing was destroyed twice.",
-         "samples histories; Val carries no heap pointer so a double drop is observed, not UB", "DESIGN.md 4/C08"),
+         "samples histories; Val carries no heap pointer so a double drop is observed, not UB; a second part runs the destructor-fault configuration (the exactly-once clause is unconditional); thorough tier additionally runs the heap-owning `values` scenario under Miri", "DESIGN.md 4/C08, 13"),
  "C09": ("worldsim", "exploration", "deterministic simulation: scripted lazy closures (data) logging what they observe inside maintain, replayed on the reference model in queue order",
          "Execution log must equal queue order with nested closures last in the same maintain, each exactly once; observations inside closures must equal the model state after merge and purge; queue empty on return.",
          "samples histories; closure nesting depth <= 2", "DESIGN.md 4/C09"),
  "C10": ("worldsim", "exploration", "deterministic simulation: 2-4 simulated tasks under a seeded baton scheduler (uniform / sticky / PCT / round-robin) with cfg(specs_verif) yield points inside the lock-free allocator and spurious-CAS buggify; set-based oracle; explicit schedule replay and minimisation",
          "Handles pairwise distinct and alive for the creator, deletes of live handles succeed, joins contain what they must, post-maintain alive set = initial + created - deleted, lazy log = push order.",
-         "sequentially consistent interleavings of the segments between yield points; AtomicBitSet/SegQueue internals are atomic steps; weak memory only via the (thorough, separate) Miri batch", "DESIGN.md 4/C10"),
+         "sequentially consistent interleavings of the segments between yield points; AtomicBitSet/SegQueue internals are atomic steps in the baton runs; the thorough tier adds 48 Miri seeds (real threads, Miri's seeded scheduler and weak-memory emulation, no hooks)", "DESIGN.md 4/C10, 13"),
  "C12": ("worldsim", "exploration", "deterministic simulation: tracked-storage histories (both wrappers over every inner kind), event channel read after every operation and compared with MUST / MUST-NOT / MAY expectations from the reference model; emission toggled",
          "Inserted/Removed exactly and in order, Modified iff mutable access reached the caller, nothing for read-only access or while emission is off; replaying events reproduces the mask.",
-         "histories without bulk clear() (excluded by the property); Modified is checked as iff, not as a count", "DESIGN.md 4/C12"),
+         "histories without bulk clear() (excluded by the property); Modified is checked as iff, not as a count; removal events of one operation are compared as a set; a second part (`trackedfaults`) checks that membership replay survives a destructor panic inside entity deletion", "DESIGN.md 4/C12, 13"),
  "C13": ("worldsim", "exploration", "deterministic simulation: restricted-storage joins (read, shared-write, exclusive lending) over model-generated contents with stale/dead/un-merged other-entity lookups and seeded subsets fetched mutably",
          "Visited indices, own values, other-entity lookups, writes and Modified events are compared with the model.",
          "sequential and lending forms in worldsim; parallel forms (restrict / restrict_mut par_join) in joinsim mode A/B", "DESIGN.md 4/C13"),
  "C19": ("worldsim", "fault_enumeration", "deterministic simulation with fault injection: for each seeded history every destructor call the model predicts for every destroying operation (and world teardown) is made to panic, one execution per (operation, call) pair, caught, ledger + lookups checked, model re-synchronised narrowly, run continued under the strict oracle",
          "No value destroyed twice, no lookup/join/slice exposes a destroyed value, world usable afterwards; all four protection mechanisms named by the property were shown to be caught when removed.",
-         "one fault armed at a time; faults keyed on value identity (hash-map drop order is per-process); fault points per history enumerated up to a cap of 48+", "DESIGN.md 4/C19"),
+         "one fault armed at a time; faults keyed on value identity (hash-map drop order is per-process); fault points per history enumerated up to a cap of 48+; thorough tier additionally runs the heap-owning `faults` scenario under Miri (double free / use-after-free become hard errors)", "DESIGN.md 4/C19, 13"),
  "C07": ("joinsim", "exploration", "deterministic simulation of the work-stealing bridge: (A) seeded split tree over the real private JoinProducer (cfg(specs_verif) hook) with leaves as baton-scheduled tasks and in-hand tracking, (B) rayon's real bridge on a virtual pool of N workers with one running thread; oracle from the reference contents",
          "Delivered multiset = expected intersection (none missing, none twice), no index in two hands at once, item contents = model, storages afterwards = mutation applied exactly once per item, for 10 member mixes, 18 storage configurations, widths to 265k, pool sizes 1..1000.",
          "split trees are sampled; visibility after par_join returns is rayon's join guarantee", "DESIGN.md 3/E2, 4/C07"),
@@ -51,7 +51,7 @@ CHECKS = {
          "SimpleMarker only; the stale allocator mapping is the deferred state that makes this a simulation target", "DESIGN.md 3/E4, 4/C15"),
  "C20": ("twin", "exploration", "deterministic simulation turned on itself: per-seed transcript (handles, results, join orders, event streams, serialised bytes) computed twice in one process with heap/hasher perturbation in between and again in a different batch of worker processes; all hashes must agree",
          "Same-process twin worlds and cross-process re-execution (different hash seeds, address layout, worker count) produce identical transcripts for every seed.",
-         "ahash's per-process keys have no seam and are varied by re-executing in other processes; destructor order in hash-map storages is not an observable the property lists", "DESIGN.md 4/C20"),
+         "ahash's per-process keys have no seam and are varied by re-executing in other processes; destructor order in hash-map storages is not an observable the property lists; a third part runs the twin comparison over fault-injected histories (state leaking from one world to the next after a caught panic)", "DESIGN.md 4/C20, 13"),
 }
 
 NOT_APPLICABLE = {
@@ -94,6 +94,7 @@ def main():
             "add_only": True,
         },
         "engines": [
+            {"name": "mirisim", "path": "/verif/miri/src/main.rs", "serves_properties": ["C08", "C10", "C19"], "kind_free_text": "thorough tier only: scenarios with heap-owning values and real threads under Miri's seeded scheduler (hook-free second simulator)"},
             {"name": "savesim", "path": "/verif/dst/src/savesim.rs", "serves_properties": ["C15"], "kind_free_text": "marker/save-load histories over two worlds with stream faults"},
             {"name": "twin", "path": "/verif/dst/src/twin.rs", "serves_properties": ["C20"], "kind_free_text": "twin-run and cross-process transcript comparison"},
             {"name": "joinsim", "path": "/verif/dst/src/joinsim.rs", "serves_properties": ["C07", "C13"], "kind_free_text": "parallel joins under a simulated work-stealing bridge (seeded split tree + baton tasks) and under rayon's real bridge on a virtual pool"},
